@@ -391,8 +391,16 @@ theorem exec_all (env : Env) (henv : EnvOk env) (code : List Instr) :
   | .ff, c, l, hw => (exec_loopfree env henv code _ c l rfl hw).weaken
   | .found s, c, l, hw => (exec_loopfree env henv code _ c l rfl hw).weaken
   | .ruleRef k, c, l, hw => (exec_loopfree env henv code _ c l rfl hw).weaken
-  | .pctStr p set, c, l, hw => absurd hw (by simp [WF])
-  | .pctRules p set, c, l, hw => absurd hw (by simp [WF])
+  | .pctStr p set, c, l, hw => by
+    have h := hw
+    simp only [WF] at h
+    exact (exec_loopfree env henv code _ c l
+      (by simp only [loopFree]; exact nonbool_loopFree env p c l h.1 (by rw [h.2.1]; decide)) hw).weaken
+  | .pctRules p set, c, l, hw => by
+    have h := hw
+    simp only [WF] at h
+    exact (exec_loopfree env henv code _ c l
+      (by simp only [loopFree]; exact nonbool_loopFree env p c l h.1 (by rw [h.2.1]; decide)) hw).weaken
   | .countIn s lo hi, c, l, hw =>
     (exec_loopfree env henv code _ c l (nonbool_loopFree env _ c l hw (by simp [tyOf])) hw).weaken
   | .offset s i, c, l, hw =>
